@@ -22,6 +22,7 @@ func init() {
 }
 
 func runC31(c *core.Ctx) {
+	checkOntKeyHeightOrder(c)
 	isHeader := func(v ssa.Value) bool { p, ok := ir.Strip(v).(*ssa.Parameter); return ok && p.Name() == "header" }
 	isBk := func(v ssa.Value) bool {
 		base, f, ok := fieldLoad(v)
